@@ -394,7 +394,9 @@ func main() {
 		"safeAdd is observed through an export shim added by go build -overlay; one statement is inserted at the top of safeAdd (go/ast rewrite of the current source) to count calls with a negative operand coming from the walker: the count must be 0, so only the non-negative quadrant of the grid is reachable from Calculate.",
 		"Stub resolvers return non-null values so that nested resolvers run; resolver errors, subscriptions and websocket transport are not part of this check.",
 	}
-	probe.Cleanup()
+	if os.Getenv("C14_KEEP") == "" { // debugging aid: keep the scratch modules and shard results
+		probe.Cleanup()
+	}
 	c.Finish()
 }
 
